@@ -25,9 +25,14 @@ PLAIN_PY = "/venv/bin/python"
 NCPU = min(16, os.cpu_count() or 4)
 
 
+OUT = os.environ.get("VF_OUT") or ROOT       # where evidence/ and replays/ go (default: /verif)
+
+
 def _env(extra):
     env = dict(os.environ)
     env["PYTHONPATH"] = ROOT + os.pathsep + os.path.join(ROOT, "stubs")
+    if os.environ.get("VF_REPO"):       # analyse another checkout instead of /repo (used for seeded-change experiments only)
+        env["PYTHONPATH"] = os.environ["VF_REPO"] + os.pathsep + env["PYTHONPATH"]
     env["PYTHONDONTWRITEBYTECODE"] = "1"
     env.setdefault("PYTHONHASHSEED", "0")
     env.update({k: str(v) for k, v in extra.items()})
@@ -83,9 +88,9 @@ def _replay(path):
 
 
 def _save_replay(prop, cex):
-    os.makedirs(os.path.join(ROOT, "replays"), exist_ok=True)
+    os.makedirs(os.path.join(OUT, "replays"), exist_ok=True)
     blob = json.dumps(cex, sort_keys=True, default=str)
-    path = os.path.join(ROOT, "replays", f"{prop}-{hashlib.sha1(blob.encode()).hexdigest()[:12]}.json")
+    path = os.path.join(OUT, "replays", f"{prop}-{hashlib.sha1(blob.encode()).hexdigest()[:12]}.json")
     with open(path, "w") as f:
         f.write(blob)
     return path
@@ -96,7 +101,7 @@ def run_property(prop, tier):
     mod = importlib.import_module(f"vflib.props.{prop.lower()}")
     parts = mod.parts(tier)
     meta = mod.META
-    for old in glob.glob(os.path.join(ROOT, "replays", f"{prop}-*.json")):
+    for old in glob.glob(os.path.join(OUT, "replays", f"{prop}-*.json")):
         os.remove(old)     # replay files belong to the run that wrote them
     work = tempfile.mkdtemp(prefix=f"vf-{prop}-", dir=os.environ.get("VF_WORKDIR") or None)
     os.makedirs(os.path.join(work, "cex"))
@@ -284,8 +289,8 @@ def run_property(prop, tier):
     }
     if hasattr(mod, "finish_evidence"):
         mod.finish_evidence(evidence, results)
-    os.makedirs(os.path.join(ROOT, "evidence"), exist_ok=True)
-    with open(os.path.join(ROOT, "evidence", f"{prop}.json"), "w") as f:
+    os.makedirs(os.path.join(OUT, "evidence"), exist_ok=True)
+    with open(os.path.join(OUT, "evidence", f"{prop}.json"), "w") as f:
         json.dump(evidence, f, indent=1, default=str)
     if not os.environ.get("VF_KEEP"):
         shutil.rmtree(work, ignore_errors=True)
